@@ -35,6 +35,77 @@ def gen_sparse_group(rng):
     return {"ops": {"O": op}, "node_templates": nts, "circuit": {"name": "net", "nodes": nodes, "edges": edges}}
 
 
+def _li_group(rng, n, opname="li"):
+    op = {"name": opname, "eqs": [{"lhs": "x", "de": True, "rhs": M.add(M.mul(M.num(F(-1, 2)), M.var("x")), M.mul(M.var("k"), M.var("r_in")))}],
+          "vars": {"x": {"decl": "output", "value": "1"}, "k": {"decl": "const", "value": "1"}, "r_in": {"decl": "input", "value": "0"}}}
+    nts, nodes = {}, {}
+    labels = [f"n{i}" for i in range(n)]
+    for i, l in enumerate(labels):
+        nts[f"T{i}"] = {"name": f"t{i}", "ops": ["O"], "overrides": {"O": {"x": str(F(rng.randint(-6, 6), 2)), "k": str(F(rng.choice([1, 2, 3, -1]), rng.choice([1, 2])))}}}
+        nodes[l] = f"T{i}"
+    return op, nts, nodes, labels
+
+
+def gen_alltoall(rng):
+    """stratum: all-to-all coupling among 4-5 structurally identical nodes (>= 12 edges between the same pair of vectorized variables, converging targets)"""
+    n = rng.choice([4, 4, 5])
+    op, nts, nodes, labels = _li_group(rng, n)
+    edges = [{"src": f"{a}/li/x", "tgt": f"{b}/li/r_in", "w": str(F(rng.choice([1, 2, 3, -2, 5]), rng.choice([1, 2])))} for a in labels for b in labels if a != b]
+    if rng.random() < 0.5:
+        rng.shuffle(edges)
+    return {"ops": {"O": op}, "node_templates": nts, "circuit": {"name": "net", "nodes": nodes, "edges": edges}}
+
+
+def gen_perm(rng):
+    """stratum: a permutation coupling of N identical nodes in which the first listed edge targets member 0, the last member N-1 and the interior is
+    permuted; delayed (N >= 4) or undelayed with N >= 10"""
+    delayed = rng.random() < 0.5
+    n = rng.choice([4, 5, 6]) if delayed else rng.choice([10, 11, 12])
+    op, nts, nodes, labels = _li_group(rng, n)
+    tg = list(range(1, n - 1))
+    rng.shuffle(tg)
+    tg = [0] + tg + [n - 1]
+    src = list(range(n))
+    rng.shuffle(src)
+    edges = []
+    for s_, t_ in zip(src, tg):
+        e = {"src": f"n{s_}/li/x", "tgt": f"n{t_}/li/r_in", "w": str(F(rng.choice([1, 2, 3, -2]), rng.choice([1, 2])))}
+        if delayed:
+            e["delay"] = "DT*" + str(rng.choice([2, 3]))
+        edges.append(e)
+    return {"ops": {"O": op}, "node_templates": nts, "circuit": {"name": "net", "nodes": nodes, "edges": edges}, "_delayed": delayed}
+
+
+def gen_twin(rng):
+    """stratum: two node types with the same operator and variable names; each carries a pair of structurally identical synapse operators (same equations,
+    other names and constants) feeding a shared population operator; the synapse equations differ between the two node types"""
+    def syn(name, form, k):
+        rhs = M.add(M.mul(M.num(F(-1, 2)), M.var("I_syn")), M.mul(M.var("k"), M.var("r_in"))) if form == 0 else \
+            M.mul(M.var("tau"), M.sub(M.mul(M.var("k"), M.var("r_in")), M.var("I_syn")))
+        return {"name": name, "eqs": [{"lhs": "I_syn", "de": True, "rhs": rhs}],
+                "vars": {"I_syn": {"decl": "output", "value": "0"}, "tau": {"decl": "const", "value": "2"}, "k": {"decl": "const", "value": str(k)}, "r_in": {"decl": "input", "value": "0"}}}
+    pop = {"name": "pop", "eqs": [{"lhs": "v", "de": True, "rhs": M.add(M.mul(M.num(F(-1, 4)), M.var("v")), M.var("I_syn"))}],
+           "vars": {"v": {"decl": "output", "value": "0"}, "I_syn": {"decl": "input", "value": "0"}}}
+    ops = {"AE": syn("syn_e", 0, 1), "AI": syn("syn_i", 0, -2), "BE": syn("syn_e", 1, 1), "BI": syn("syn_i", 1, -2), "P": pop}
+    nts = {"A": {"name": "A", "ops": ["AE", "AI", "P"]}, "B": {"name": "B", "ops": ["BE", "BI", "P"]}}
+    labels = ["a", "b"] + (["a2"] if rng.random() < 0.5 else []) + (["b2"] if rng.random() < 0.5 else [])
+    nodes = {l: ("A" if l.startswith("a") else "B") for l in labels}
+    if rng.random() < 0.5:
+        items = list(nodes.items()); rng.shuffle(items); nodes = dict(items)
+    edges = []
+    for _ in range(rng.randint(2, 2 * len(labels))):
+        s_, t_ = rng.choice(labels), rng.choice(labels)
+        e = {"src": f"{s_}/pop/v", "tgt": f"{t_}/{rng.choice(['syn_e', 'syn_i'])}/r_in", "w": str(F(rng.choice([1, 2, 4, -1]), rng.choice([1, 2])))}
+        if not any(x["src"] == e["src"] and x["tgt"] == e["tgt"] for x in edges):
+            edges.append(e)
+    mdl = {"ops": ops, "node_templates": nts, "circuit": {"name": "net", "nodes": nodes, "edges": edges},
+           "post_values": {f"{l}/pop/v": str(F(rng.randint(-4, 4), 2)) for l in labels}}
+    for l in labels:
+        mdl["post_values"][f"{l}/syn_e/I_syn"] = str(F(rng.randint(-3, 3), 2))
+        mdl["post_values"][f"{l}/syn_i/I_syn"] = str(F(rng.randint(-3, 3), 2))
+    return mdl
+
+
 def add_edge_templates(rng, mdl):
     """turn some edges into edges with an EdgeTemplate (algebraic or dynamic edge operator) and edge-specific parameter values"""
     eops = {"EA": {"name": "eop", "eqs": [{"lhs": "eo", "de": False, "rhs": M.mul(M.var("ea"), M.var("s_in"))}],
@@ -58,22 +129,40 @@ def add_edge_templates(rng, mdl):
 
 def gen_case(rng, tier):
     for _ in range(80):
-        sparse = rng.random() < 0.25
+        r0 = rng.random()
+        sparse = r0 < 0.22
+        special = None
         if sparse:
             mdl = gen_sparse_group(rng)
+        elif r0 < 0.30:
+            mdl, special = gen_alltoall(rng), "alltoall"
+        elif r0 < 0.38:
+            mdl, special = gen_perm(rng), "perm"
+        elif r0 < 0.46:
+            mdl, special = gen_twin(rng), "twin"
+        elif r0 < 0.52:
+            from .c06 import gen_bound_case
+            mdl, special = gen_bound_case(rng, tier)["mdl"], "bound-edge"
         else:
             mdl = G.gen_model(rng, max_nodes=6, min_nodes=2, linear=True, clones=True, depth=rng.choice([0, 0, 0, 1]), hostile=rng.random() < 0.5)
-        if not sparse and rng.random() < 0.35:
+        if not sparse and not special and rng.random() < 0.35:
             add_edge_templates(rng, mdl)
+        dt = rng.choice([F(1), F(1, 2), F(1, 2), F(1, 4)])
+        steps = rng.choice([2, 3, 4])
+        if mdl.pop("_delayed", False):
+            steps = rng.choice([4, 5])
+            for e in mdl["circuit"]["edges"]:
+                if isinstance(e.get("delay"), str) and e["delay"].startswith("DT*"):
+                    e["delay"] = C.q2s(dt * int(e["delay"][3:]))
         flat = M.flatten(mdl)
         sp = [p for p in M.state_paths(flat) if not p.startswith("__edge")]
         if len(set(sp)) != len(sp):
             continue
-        dt = rng.choice([F(1), F(1, 2), F(1, 2), F(1, 4)])
-        steps = rng.choice([2, 3, 4])
         case = {"mdl": mdl, "run": {"T": C.q2s(dt * steps), "dt": C.q2s(dt), "solver": rng.choice(["euler", "euler", "heun"]),
                                     "outputs": {f"v{i}": p for i, p in enumerate(sp)}},
-                "style": {"space": rng.random() < 0.7, "pow": "^", "ddt": rng.random() < 0.3}, "in_place": rng.random() < 0.5}
+                "style": {"space": rng.random() < 0.7, "pow": "^", "ddt": rng.random() < 0.3}, "in_place": rng.random() < 0.5, "stratum": special or ("sparse" if sparse else "random")}
+        if special in ("perm",) and any(e.get("delay") for e in mdl["circuit"]["edges"]):
+            case["run"]["solver"] = "euler"        # Heun advances the ring buffer twice per step (C09's known finding)
         if sparse and rng.random() < 0.6:
             case["run"]["kwargs"] = {"matrix_sparseness": rng.choice([0.5, 0.9, 1.0])}
         o = N.oracle_traj(case)
@@ -99,9 +188,16 @@ def _unused():
 def expected_cols(case, orc):
     """column key -> list of exact values over the rows"""
     exp = {}
+    mult = _mult(case)
     for key, p in case["run"]["outputs"].items():
-        exp[key] = [row[p] for row in orc["rows"]]
+        exp[key] = [row[p] for row in orc["rows"]][::mult][:orc["steps"] // mult]
     return exp
+
+
+def _mult(case):
+    """sampling_step_size / step_size (an integer in every generated case)"""
+    rc = case["run"]
+    return int(F(rc["dts"]) / F(rc["dt"])) if rc.get("dts") else 1
 
 
 def deviations(case, res, orc):
@@ -110,8 +206,8 @@ def deviations(case, res, orc):
     exp = expected_cols(case, orc)
     got = {c[0] if isinstance(c[0], str) else "/".join(c[0]): c[1] for c in res["cols"]}
     bad = []
-    dt = F(case["run"]["dt"])
-    if res["index"] != [C.q2s(k * dt) for k in range(orc["steps"])]:
+    dt = F(case["run"]["dt"]) * _mult(case)
+    if res["index"] != [C.q2s(k * dt) for k in range(orc["steps"] // _mult(case))]:
         bad.append(("index", res["index"]))
     for k, v in exp.items():
         if got.get(k) != v:
@@ -186,7 +282,24 @@ def kf_group_alg_loop(case, mode, im, dev):
         finals = out_of.get(e["tgt"][0], []) if e["tgt"][0] in edge_nodes else [e["tgt"][0]]
         if is_alg and any(grp[e["src"][0]] == grp[t] for t in finals if t in grp):
             return True
-    return False
+    # the same across groups: edges with algebraic sources that form a cycle on the level of the merged groups (group A's algebraic output feeds group B
+    # whose algebraic output feeds group A) although no cycle exists between the individual nodes
+    arcs = {}
+    for e in flat["edges"]:
+        if e["src"][0] in edge_nodes:
+            continue
+        o = ops[(e["src"][0], e["src"][1])]
+        if any(q["lhs"] == e["src"][2] and not q["de"] for q in o["eqs"]):
+            finals = out_of.get(e["tgt"][0], []) if e["tgt"][0] in edge_nodes else [e["tgt"][0]]
+            for t in finals:
+                if t in grp:
+                    arcs.setdefault(grp[e["src"][0]], set()).add(grp[t])
+    def reach(a, b, seen):
+        for nx in arcs.get(a, ()):
+            if nx == b or (nx not in seen and reach(nx, b, seen | {nx})):
+                return True
+        return False
+    return any(reach(g, g, {g}) for g in arcs)
 
 
 def kf_parallel_template_edges(case, mode, im, dev):
@@ -237,7 +350,7 @@ def check(tier, seed, replay=None):
         gf = group_features(case["mdl"])
         ne = G.features(case["mdl"])["n_edges"]
         gstat["merged_cases"] += gf["max_group"] >= 2
-        rep.count("vec-vs-novec", json.dumps(case, sort_keys=True), nontrivial=(gf["max_group"] >= 2 and ne >= 1))
+        rep.count("vec-vs-novec-" + case.get("stratum", "random"), json.dumps(case, sort_keys=True), nontrivial=(gf["max_group"] >= 2 and ne >= 1))
         mr = drv.ask(N.model_traj_request(case, orc["flat"]))
         if mr.get("rows") != orc["rows"]:
             raise C.HarnessError("Lean model and Python oracle disagree on a trajectory: " + json.dumps(case)[:500])
